@@ -398,7 +398,7 @@ func c15TraceLine(work, line string, lineNo int, r *rng, maxCases int) {
 	var initGRW float64
 	var route string
 	emitted := 0
-	nDays, nChanged := 0, 0
+	nDays, nChanged, nSlow := 0, 0, 0
 	var prevGRW float64
 	var static jobj
 	fails := map[string]int{}
@@ -445,6 +445,7 @@ func c15TraceLine(work, line string, lineNo int, r *rng, maxCases int) {
 			emit(s2)
 		}
 		changed := g.GRW != prevGRW
+		lastGRW := prevGRW
 		if changed {
 			initial = false
 			nChanged++
@@ -453,7 +454,12 @@ func c15TraceLine(work, line string, lineNo int, r *rng, maxCases int) {
 		d := c15Day{zeit: zeit, grw: g.GRW, w: cp(g.W[:N]), wm: cp(g.WMIN[:N]), por: cp(g.PORGES[:N]), wnor: cp(g.WNOR[:N]), wred: g.WRED, initial: initial}
 		days = append(days, d)
 		// model comparison cases: the initial state once, then a sample of the days on which the update fired
-		if nDays == 1 || (changed && emitted < maxCases && (nChanged <= 8 || r.intn(12) == 0)) {
+		slow := changed && math.Abs(g.GRW-lastGRW) <= 0.01
+		if slow {
+			nSlow++
+		}
+		// (slow drifts are sampled more densely: an update that is skipped for small steps shows up there)
+		if nDays == 1 || (changed && emitted < maxCases && (nChanged <= 6 || (slow && r.intn(14) == 0) || r.intn(40) == 0)) {
 			emitted++
 			emit(jobj{"k": "gwday", "line": lineNo, "zeit": zeit, "initial": initial, "grw": hx(g.GRW),
 				"w": hxs(d.w), "wmin": hxs(d.wm), "porges": hxs(d.por), "wnor": hxs(d.wnor), "wred": hx(d.wred)})
@@ -488,9 +494,24 @@ func c15TraceLine(work, line string, lineNo int, r *rng, maxCases int) {
 		if !(d.wm[0] < d.wred && d.wred < d.w[0]) {
 			fail("run-wred-not-between:"+route, "line=%d zeit=%d grw=%v wmin0=%v wred=%v w0=%v stein0=%v", lineNo, zeit, g.GRW, d.wm[0], d.wred, d.w[0], g.STEIN[0])
 		}
+		// below the CURRENT table (every day, whether or not the day loop saw a change): FC = PS ...
 		for l := int(g.GRW+1) + 1; l <= N; l++ {
 			if l >= 1 && d.w[l-1] != d.por[l-1] {
 				fail("run-fc-below-gw", "line=%d zeit=%d layer=%d grw=%v w=%v porges=%v", lineNo, zeit, l, g.GRW, d.w[l-1], d.por[l-1])
+			}
+		}
+		// ... and the layer the table lies in holds the mix of pore volume and its own field capacity for today's level
+		// (init.go:93; not in the initial phase, whose saturation rule differs: F7)
+		if l := int(g.GRW + 1); !initial && l >= 1 && l <= N {
+			own := g.W_Backup[l-1]
+			if route == "table" {
+				h := horizonOf(l)
+				own = g.FELDW[h] * (1 - g.STEIN[h])
+			}
+			fr := math.Mod(g.GRW+1, 1)
+			want := (1-fr)*d.por[l-1] + own*fr
+			if d.w[l-1] != want {
+				fail("run-gw-table-layer-mix:"+route, "line=%d zeit=%d layer=%d grw=%v w=%v expected=%v porges=%v own_fc=%v", lineNo, zeit, l, g.GRW, d.w[l-1], want, d.por[l-1], own)
 			}
 		}
 	}
@@ -540,6 +561,6 @@ func c15TraceLine(work, line string, lineNo int, r *rng, maxCases int) {
 	for k, v := range fails {
 		counts[k] = v
 	}
-	emit(jobj{"k": "run", "line": lineNo, "success": res.Success, "err": res.Err, "days": nDays, "gw_changes": nChanged, "levels": levels,
+	emit(jobj{"k": "run", "line": lineNo, "success": res.Success, "err": res.Err, "days": nDays, "gw_changes": nChanged, "gw_slow_changes": nSlow, "levels": levels,
 		"return_pairs": pairs, "route": route, "fail_counts": counts})
 }
